@@ -495,6 +495,8 @@ def _s_stream_fresh(ctx):
             return None if None in rs else all(rs)
         if isinstance(d, (ast.Attribute, ast.Subscript)):
             return False          # an attribute / a container element survives from an earlier turn
+        if any(isinstance(x, ast.Attribute) and isinstance(x.value, ast.Name) and x.value.id == "self" for x in ast.walk(d)):
+            return False          # computed from the object's own state (self.__dict__.pop(..), self._x.get(..)): that, too, survives from an earlier turn
         return None
     for k in sorted(keys):
         defs = _defs(f, k)
@@ -902,6 +904,9 @@ def _unblock_sites(ctx):
 
 
 MUTANTS = [
+    Mutant("resume-guard-predicate-asked-for-the-wrong-state", H2, "        # If we don't have a producer, we have no-one to tell.\n        if not self.producer:\n            return\n\n        # If we're not blocked on flow control, we don't care.\n        if self._producerProducing:\n            return\n\n        # We check whether the stream's flow control window is actually above\n", "        if not self._producerInState(True):\n            return\n\n        # We check whether the stream's flow control window is actually above\n", more=[(H2, '    def flowControlBlocked(self):', '    def _producerInState(self, producing):\n        if not self.producer:\n            return False\n        return bool(self._producerProducing) == producing\n\n    def flowControlBlocked(self):')], expect_rule="backpressure/"),
+    Mutant("stream-selector-prefers-a-remembered-stream", H2, '        stream = None\n\n        while stream is None:\n            try:\n                stream = next(self.priority)\n            except priority.DeadlockError:\n                # All streams are currently blocked or not progressing. Wait\n                # until a new one becomes available.\n                assert self._sendingDeferred is None\n                self._sendingDeferred = Deferred()\n                self._sendingDeferred.addCallback(self._sendPrioritisedData)\n                return\n', '        stream = self._pickStream()\n        if stream is None:\n            return\n',
+           more=[(H2, '    def _sendPrioritisedData(self, *args):', '    def _pickStream(self):\n        if getattr(self, chr(95) + chr(108), None) is not None:\n            return self._l\n        while True:\n            try:\n                picked = next(self.priority)\n            except priority.DeadlockError:\n                assert self._sendingDeferred is None\n                self._sendingDeferred = Deferred()\n                self._sendingDeferred.addCallback(self._sendPrioritisedData)\n                return None\n            if picked is not None:\n                return picked\n\n    def _sendPrioritisedData(self, *args):')], expect_rule="loop/stream-chosen-this-turn"),
     Mutant("stream-remembered-across-turns-in-an-attribute", H2, "        stream = None\n\n        while stream is None:", "        stream = self.__dict__.pop(\"_turnStream\", None)\n\n        while stream is None:",
            expect_rule="loop/stream-chosen-this-turn"),
     Mutant("stream-handed-to-the-next-turn-as-argument", H2, "    def _sendPrioritisedData(self, *args):", "    def _sendPrioritisedData(self, *args, stream=None):",
@@ -932,6 +937,8 @@ MUTANTS = [
     Mutant("end-stream-before-sentinel", H2, "        if frameData is _END_STREAM_SENTINEL:\n            # There's no error handling here even though", "        if frameData is _END_STREAM_SENTINEL or not frameData:\n            # There's no error handling here even though"),
 ]
 SILENT = [
+    Silent("resume-guard-through-a-state-predicate", H2, "        # If we don't have a producer, we have no-one to tell.\n        if not self.producer:\n            return\n\n        # If we're not blocked on flow control, we don't care.\n        if self._producerProducing:\n            return\n\n        # We check whether the stream's flow control window is actually above\n", "        if not self._producerInState(False):\n            return\n\n        # We check whether the stream's flow control window is actually above\n", more=[(H2, '    def flowControlBlocked(self):', '    def _producerInState(self, producing):\n        if not self.producer:\n            return False\n        return bool(self._producerProducing) == producing\n\n    def flowControlBlocked(self):')]),
+    Silent("stream-chosen-by-a-selector-helper-that-parks-the-loop", H2, '        stream = None\n\n        while stream is None:\n            try:\n                stream = next(self.priority)\n            except priority.DeadlockError:\n                # All streams are currently blocked or not progressing. Wait\n                # until a new one becomes available.\n                assert self._sendingDeferred is None\n                self._sendingDeferred = Deferred()\n                self._sendingDeferred.addCallback(self._sendPrioritisedData)\n                return\n', '        stream = self._pickStream()\n        if stream is None:\n            return\n', more=[(H2, '    def _sendPrioritisedData(self, *args):', '    def _pickStream(self):\n        while True:\n            try:\n                picked = next(self.priority)\n            except priority.DeadlockError:\n                assert self._sendingDeferred is None\n                self._sendingDeferred = Deferred()\n                self._sendingDeferred.addCallback(self._sendPrioritisedData)\n                return None\n            if picked is not None:\n                return picked\n\n    def _sendPrioritisedData(self, *args):')]),
     # firing the parked Deferred before clearing the attribute is not observable: the re-entered loop has an unblocked stream, so it cannot park again in that turn
     Silent("wake-then-clear-parked-deferred", H2, "        self._outboundStreamQueues[streamID].append(_END_STREAM_SENTINEL)\n        self.priority.unblock(streamID)\n        if self._sendingDeferred is not None:\n            d = self._sendingDeferred\n            self._sendingDeferred = None\n            d.callback(streamID)",
            "        self._outboundStreamQueues[streamID].append(_END_STREAM_SENTINEL)\n        self.priority.unblock(streamID)\n        if self._sendingDeferred is not None:\n            d = self._sendingDeferred\n            d.callback(streamID)\n            self._sendingDeferred = None"),
